@@ -22,6 +22,8 @@ for name in sorted(os.listdir(os.path.join(ROOT, 'seeded'))):
     if '_apply' in res:
         rows.append((name, ', '.join(res.get('files', [])), 'patch does not apply to the repaired tree: ' + (meta.get('not_installable') or res['_apply'][:80]), '', ''))
         continue
+    if not res.get('files'):
+        res['files'] = sorted({l[6:].strip() for l in open(os.path.join(sd, 'patch.diff')) if l.startswith('+++ b/')})
     caught = [p for p, v in res.items() if isinstance(v, dict) and v.get('exit') == 1]
     confirmed = [p for p in caught if res[p].get('confirmed')]
     undec = [p for p, v in res.items() if isinstance(v, dict) and v.get('exit') in (2, 3)]
